@@ -378,6 +378,76 @@ fn run_big<T: Fl>(name: &str, x64: &[f64], y64: &[f64], nl: usize, dense_x: bool
     }
 }
 
+/// Dynamic-rank data with many trailing axes: the result of a batch has more than 12 / 16 / 20 axes.
+fn run_high_rank(trailing_axes: usize, out: &mut JobOut) {
+    use ndarray::{ArrayD, IxDyn};
+    use ndarray_interp::interp2d::{Bilinear, Interp2DBuilder};
+    let (x, y) = (vec![0.0, 1.0, 3.0], vec![-1.0, 1.0, 1.5]);
+    let mut shape = vec![3usize, 3];
+    for k in 0..trailing_axes {
+        shape.push(if k == 0 || k + 1 == trailing_axes { 2 } else { 1 });
+    }
+    let lanes: usize = shape[2..].iter().product();
+    let val = |i: usize, j: usize, k: usize| -> f64 { GENERIC[(3 * i + 5 * j + 7 * k) % 11] * (1 + (i + 2 * j + k) % 3) as f64 };
+    let mut c = 0usize;
+    let data = ArrayD::from_shape_fn(IxDyn(&shape), |_| {
+        let (i, j, k) = (c / (3 * lanes), (c / lanes) % 3, c % lanes);
+        c += 1;
+        val(i, j, k)
+    });
+    let key = format!("high-rank:{trailing_axes}-trailing-axes");
+    let ip = match catch(|| Interp2DBuilder::new(data.clone()).x(ndarray::Array1::from(x.clone())).y(ndarray::Array1::from(y.clone())).strategy(Bilinear::new()).build()) {
+        Ok(Ok(ip)) => ip,
+        other => {
+            out.violate(format!("{key}:build"), format!("valid dynamic-rank data not accepted: {:?}", other.map(|r| r.map(|_| ()))), Json::Null);
+            return;
+        }
+    };
+    out.states += 1;
+    let (qx, qy) = (vec![0.0, 0.75, 2.5, 3.0], vec![1.25, -1.0, 0.0, 1.5]);
+    for qshape in [vec![4usize], vec![2, 2], vec![1, 2, 1, 2]] {
+        let xa = ArrayD::from_shape_vec(IxDyn(&qshape), qx.clone()).unwrap();
+        let ya = ArrayD::from_shape_vec(IxDyn(&qshape), qy.clone()).unwrap();
+        let mut want_shape = qshape.clone();
+        want_shape.extend_from_slice(&shape[2..]);
+        let mut results: Vec<(&str, Result<ArrayD<f64>, String>)> = vec![("interp_array", catch(|| ip.interp_array(&xa, &ya)).and_then(|r| r.map_err(|e| e.to_string())))];
+        let mut buf = ArrayD::from_elem(IxDyn(&want_shape), f64::NAN);
+        let r = catch(|| ip.interp_array_into(&xa, &ya, buf.view_mut())).and_then(|r| r.map_err(|e| e.to_string()));
+        results.push(("interp_array_into", r.map(|_| buf)));
+        if qshape.len() == 1 {
+            let (x1, y1) = (ndarray::Array1::from(qx.clone()), ndarray::Array1::from(qy.clone()));
+            results.push(("interp_array(Ix1 query)", catch(|| ip.interp_array(&x1, &y1)).and_then(|r| r.map(|a| a.into_dyn()).map_err(|e| e.to_string()))));
+        }
+        for (call, res) in results {
+            out.evals += 1;
+            out.nontrivial += 1;
+            out.transitions += 1;
+            let what = match &res {
+                Ok(a) if a.shape() != &want_shape[..] => Some(format!("result shape {:?}, expected {:?}", a.shape(), want_shape)),
+                Ok(a) => {
+                    let mut bad = None;
+                    for (e, &got) in a.iter().enumerate() {
+                        let (qi, k) = (e / lanes, e % lanes);
+                        let (i, j) = (bracket_scan(&x, qx[qi]), bracket_scan(&y, qy[qi]));
+                        let (exact, _) = bilinear_ref(x[i], x[i + 1], y[j], y[j + 1], val(i, j, k), val(i, j + 1, k), val(i + 1, j, k), val(i + 1, j + 1, k), qx[qi], qy[qi]);
+                        if !(err_dd(got, exact) <= 24.0 * f64::EPSILON * 9.0) {
+                            bad = Some(format!("element {e} is {got:e}, the bilinear blend gives {:e}", exact.to_f64()));
+                            break;
+                        }
+                    }
+                    bad
+                }
+                Err(e) => Some(format!("not answered: {e}")),
+            };
+            out.outcome(format!("high-rank:{call}:{}", if what.is_none() { "ok" } else { "bad" }));
+            if let Some(w) = what {
+                out.violate(format!("{key}:query{qshape:?}:{call}").replace(' ', ""), format!("Bilinear over dynamic-rank data of shape {shape:?}, query shape {qshape:?}, {call}: {w}"), Json::usizes(&shape));
+            }
+        }
+    }
+    out.sample = Some(Json::usizes(&shape));
+}
+
 fn body(ctx: &Ctx) -> (Summary, Meta) {
     let mut jobs = vec![];
     for f32 in [false, true] {
@@ -447,8 +517,13 @@ fn body(ctx: &Ctx) -> (Summary, Meta) {
         }
         out
     }));
+    sum.merge(run_jobs(ctx, "high-rank-dynamic-data", &[6usize, 10, 12, 15, 18, 24], |t| format!("high-rank:{t}-trailing-axes"), |t| {
+        let mut out = JobOut::default();
+        run_high_rank(*t, &mut out);
+        out
+    }));
     let meta = Meta {
-        rule: "every ordered pair (x-axis, y-axis) of the 2-D axis alphabet (so non-square grids occur in both orientations) + default index axes; data lanes: unit impulse at every node, 1, x, y, xy, generic table, generic*2^20, 24-bit mantissas, stored in 5 memory layouts; queries = product of the per-axis alphabets {knot, both float neighbours, quarter points}; 7 entry points (allocating with static rank 1/2/3 and dynamic queries, element-wise, and the two *_into forms on buffers that hold NaN beforehand); oracle = exact rational bilinear form of the cell found by two linear scans. Phase big-inputs: long uneven axes (squares, negated squares, powers of two; 66..3000 nodes) against a 3-node axis in both orientations with every knot / neighbour / quarter point of the long axis queried, and 3x2 grids with 32767 / 32768 / 70000 lanes. Non-trivial = query strictly inside a cell whose corner values are not all equal.".into(),
+        rule: "every ordered pair (x-axis, y-axis) of the 2-D axis alphabet (so non-square grids occur in both orientations) + default index axes; data lanes: unit impulse at every node, 1, x, y, xy, generic table, generic*2^20, 24-bit mantissas, stored in 5 memory layouts; queries = product of the per-axis alphabets {knot, both float neighbours, quarter points}; 7 entry points (allocating with static rank 1/2/3 and dynamic queries, element-wise, and the two *_into forms on buffers that hold NaN beforehand); oracle = exact rational bilinear form of the cell found by two linear scans. Phase big-inputs: long uneven axes (squares, negated squares, powers of two; 66..3000 nodes) against a 3-node axis in both orientations with every knot / neighbour / quarter point of the long axis queried, and 3x2 grids with 32767 / 32768 / 70000 lanes. Phase high-rank-dynamic-data: IxDyn data with 6 .. 24 trailing axes, queries of rank 1, 2 and 4 (results of up to 28 axes), shape and every element checked. Non-trivial = query strictly inside a cell whose corner values are not all equal.".into(),
         bounds: format!("{njobs} (type, grid) jobs; tier {}", ctx.tier.name()),
         assumptions: vec!["tolerance 24 eps max|z_corner| (three nested linear steps)".into()],
         extra: vec![],
